@@ -695,7 +695,15 @@ def _execute(trace, ctx):
             t = op["t"]
             if None in t:
                 ctx.probe("contexts-of-pattern")
-            res, err = do_read(lambda: {key(c.identifier if isinstance(c, Graph) else c) for c in store.contexts((T(t[0]), T(t[1]), T(t[2])))}, lambda: {g for g, ts in model.items() if g != DEFK and any(match(t, x) for x in ts)}, where, op)
+            listed = []
+
+            def ask(t=t):
+                listed[:] = [key(c.identifier if isinstance(c, Graph) else c) for c in store.contexts((T(t[0]), T(t[1]), T(t[2])))]
+                return set(listed)
+
+            res, err = do_read(ask, lambda: {g for g, ts in model.items() if g != DEFK and any(match(t, x) for x in ts)}, where, op)
+            if res is not None:
+                ctx.check(len(listed) == len(set(listed)), "C20.contexts-duplicates", lambda: f"{where}: contexts({t}) names a graph more than once: {_srt(listed)}")
             if res is not None:
                 ctx.probe("read-answered")
                 ctx.check(res[0] == res[1], "C20.contexts-of-triple", lambda: f"{where}: contexts({t}) -> {_srt(res[0])}, the triple is in the named graphs {_srt(res[1])}", falsy=any(x is not None and not T(x) for x in t))
